@@ -158,6 +158,39 @@ MUST_REACH = {"*": ["cancel-true", "cancel-false", "waiter-checked"]}
 BUDGET = {"quick": 200.0, "thorough": 600.0}
 
 
+def scn_diamond(ctx):
+    """Two futures derived from the same source, combined again: a = f_map(src), b = f_map(src),
+    z = combinator(a, b).  Cancelling any of them walks the graph back to the caller (a.cancel() ->
+    src cancelled -> b cancelled -> z cancelled -> a.cancel() again, nested).  cancel() returns a
+    bool and raises nothing; afterwards every future of the graph is done."""
+    from more_executors import futures as F
+    p = ctx.params
+    ev = ctx.ev
+    src = RecFuture(ev, "src")
+    a = F.f_map(src, lambda x: x)
+    b = F.f_map(src, lambda x: x)
+    comb = ("f_zip", "f_and", "f_or", "f_sequence")[ctx.choice(4, "combinator")]
+    if comb == "f_sequence":
+        z = F.f_sequence([a, b])
+    else:
+        z = getattr(F, comb)(a, b)
+    target = (("a", a), ("b", b), ("z", z))[ctx.choice(3, "cancel-which")]
+    try:
+        r = target[1].cancel()
+        ctx.check("cancel-returns-bool", isinstance(r, bool), "%s.cancel() returned %r" % (target[0], r))
+    except Exception as x:  # noqa
+        ctx.check("cancel-raises-nothing", False, "%s.cancel() in a diamond (%s over two f_map of one source) raised %r" % (target[0], comb, x))
+        r = None
+    if r is True:
+        ctx.check("cancelled-stays-cancelled", target[1].cancelled(), "%s.cancel() returned True, state %s" % (target[0], target[1]._state))
+    entries.finish(src, "value", 1)  # (a no-op if the source was cancelled)
+    sched.vsleep_until(sched.now() + 8 * ctx.eps)
+    for nm, f_ in (("a", a), ("b", b), ("z", z)):
+        ctx.check("future-finishes", f_.done(), "%s still pending" % nm)
+    ctx.reach("diamond-checked")
+    return True
+
+
 def plan(tier, seed):
     items = []
     for n in entries.ALL_ENTRIES:
@@ -180,6 +213,7 @@ def plan(tier, seed):
     for n in ("retry", "map", "poll", "throttle", "timeout", "flat_map", "cancel_on_shutdown"):
         items.append(dict(scenario="proto", params=dict(entry=n, fixA=["cancel"], fixB=["cb"], input_cancel=True, kinds_only=["cancel"]),
                           bounds=dict(P=1 if tier == "quick" else 2, post_release=True)))
+    items.append(dict(scenario="diamond", params=dict(), bounds=dict(P=0)))
     lm = [("map", ["_impl/map.py"]), ("f_map", ["_impl/map.py"])]
     if tier != "quick":
         lm += [("timeout", ["_impl/map.py", "_impl/common.py"]), ("throttle", ["_impl/throttle.py", "_impl/map.py"]),
